@@ -73,3 +73,131 @@ def greedy(rec, candidates, fails, budget):
 
 def clone(rec):
     return copy.deepcopy(rec)
+
+
+# ---------------------------------------------------------------------------
+# edits on records of the form {'workload': {'programs': [...], 'faults': [[t,i,step,exc]],
+# 'stdout_faults': [[t,i,j,errno]]}, 'segments': [[tid,n,why,op_index,op_step]]}
+# ---------------------------------------------------------------------------
+
+def drop_thread(rec, t):
+    c = clone(rec)
+    w = c['workload']
+    del w['programs'][t]
+    for name in ('faults', 'stdout_faults'):
+        if name in w:
+            w[name] = [[f[0] - (1 if f[0] > t else 0)] + list(f[1:]) for f in w[name] if f[0] != t]
+    segs = []
+    for s in c.get('segments') or []:
+        if s[0] == t:
+            continue
+        s = list(s)
+        s[0] -= 1 if s[0] > t else 0
+        segs.append(s)
+    c['segments'] = segs
+    return c
+
+
+def drop_op(rec, t, j):
+    c = clone(rec)
+    w = c['workload']
+    del w['programs'][t][j]
+    for name in ('faults', 'stdout_faults'):
+        if name in w:
+            out = []
+            for f in w[name]:
+                f = list(f)
+                if f[0] == t:
+                    if f[1] == j:
+                        continue
+                    if f[1] > j:
+                        f[1] -= 1
+                out.append(f)
+            w[name] = out
+    segs = []
+    for s in c.get('segments') or []:
+        s = list(s)
+        if s[0] == t and len(s) > 3 and s[3] is not None:
+            if s[3] == j:
+                if s[2] == 'p':
+                    continue
+            elif s[3] > j:
+                s[3] -= 1
+        segs.append(s)
+    c['segments'] = segs
+    return c
+
+
+def drop_ops(rec, t, js):
+    for j in sorted(js, reverse=True):
+        rec = drop_op(rec, t, j)
+    return rec
+
+
+def shrink_schedule(cur, fails, budget):
+    """Shortest failing prefix of the schedule, then ddmin over its segments."""
+
+    segs = cur.get('segments') or []
+    if len(segs) <= 1:
+        return cur
+    lo, hi = 1, len(segs)
+    best = None
+    while lo < hi and budget.take():
+        mid = (lo + hi) // 2
+        c = clone(cur)
+        c['segments'] = segs[:mid]
+        out = fails(c)
+        if out:
+            best = out
+            hi = mid
+        else:
+            lo = mid + 1
+    if best is not None:
+        cur = best
+    base = cur
+
+    def test(sub):
+        c = clone(base)
+        c['segments'] = sub
+        return bool(fails(c))
+
+    sub = ddmin_list(cur['segments'], test, budget)
+    if len(sub) < len(cur['segments']):
+        c = clone(cur)
+        c['segments'] = sub
+        out = fails(c)
+        if out:
+            cur = out
+    return cur
+
+
+def shrink_programs(cur, fails, budget):
+    """ddmin over the operations of each thread (faults and schedule anchors follow)."""
+
+    nt = len(cur['workload']['programs'])
+    for t in range(nt):
+        prog = cur['workload']['programs'][t]
+        if len(prog) <= 1:
+            continue
+        base = cur
+        idx = list(range(len(prog)))
+        found = {}
+
+        def test(keep, base=base, t=t, n=len(prog)):
+            drop = [j for j in range(n) if j not in set(keep)]
+            c = drop_ops(base, t, drop)
+            out = fails(c)
+            if out:
+                found['rec'] = out
+                found['keep'] = list(keep)
+            return bool(out)
+
+        keep = ddmin_list(idx, test, budget)
+        if found.get('rec') is not None and found.get('keep') == list(keep):
+            cur = found['rec']
+        elif len(keep) < len(idx):
+            c = drop_ops(base, t, [j for j in idx if j not in set(keep)])
+            out = fails(c)
+            if out:
+                cur = out
+    return cur
